@@ -2,6 +2,7 @@
 //! vcheck <Cxx> <quick|thorough|replay FILE>
 
 mod conv;
+#[macro_use]
 mod engine;
 mod gen;
 mod gens;
@@ -40,6 +41,7 @@ fn main() {
         std::process::exit(2);
     }
     engine::install_panic_hook();
+    engine::silence_library_stdout();
     let prop = args[1].as_str();
     let mode = args[2].as_str();
     let arg = args.get(3).map(|s| s.as_str());
@@ -49,16 +51,21 @@ fn main() {
     }
     let code = match prop {
         "C01" => dispatch(props::c01::C01, mode, arg),
+        "C02" => dispatch(props::c02::C02, mode, arg),
         "C03" => dispatch(props::c03::C03, mode, arg),
         "C04" => dispatch(props::c04::C04, mode, arg),
         "C05" => dispatch(props::c05::C05, mode, arg),
         "C06" => dispatch(props::c06::C06, mode, arg),
         "C07" => dispatch(props::c07::C07, mode, arg),
+        "C08" => dispatch(props::c08::C08, mode, arg),
         "C09" => dispatch(props::c09::C09, mode, arg),
+        "C10" => dispatch(props::c10::C10, mode, arg),
         "C12" => dispatch(props::c12::C12, mode, arg),
         "C13" => dispatch(props::c13::C13, mode, arg),
         "C14" => dispatch(props::c14::C14, mode, arg),
         "C15" => dispatch(props::c15::C15, mode, arg),
+        "C16" => dispatch(props::c16::C16, mode, arg),
+        "C17" => dispatch(props::c17::C17, mode, arg),
         _ => {
             eprintln!("unknown property {}", prop);
             2
